@@ -171,3 +171,23 @@ func vExtract(v interface{}) (map[string]reflect.Type, map[string]string) {
 	vMapOrderFixed(false)
 	return t, n
 }
+
+// vExtractAll: union of the maps extracted from several witnesses (iteration order held fixed).
+func vExtractAll(vs ...interface{}) (map[string]reflect.Type, map[string]string) {
+	vMapOrderFixed(true)
+	tm, nm := map[string]reflect.Type{}, map[string]string{}
+	for _, v := range vs {
+		t, n := ExtractTypeNameMap(v)
+		for k, x := range t {
+			tm[k] = x
+		}
+		for k, x := range n {
+			nm[k] = x
+		}
+	}
+	vMapOrderFixed(false)
+	return tm, nm
+}
+
+// vIsOpen: is this finding listed as open in known_findings.jsonl? (natively: false, nothing is carved out)
+func vIsOpen(id string) bool { return false }
